@@ -97,10 +97,13 @@ def run(ctx):
            "dispatch is CachedMapper's" if ok else
            "CachedSubstitutionMapper does not dispatch through CachedMapper")
     # its __init__ initialises both bases
-    init = csm.members.get("__init__")
-    src = ast.unparse(init.node) if init else ""
-    ok = "CachedIdentityMapper.__init__(self)" in src and \
-        "SubstitutionMapper.__init__(self, subst_func)" in src
+    from ..rules import init_effects
+    eff = init_effects(model, csm)
+    sm_eff = init_effects(model, model.cls(
+        "pymbolic.mapper.substitutor:SubstitutionMapper"))
+    need = [a for a, v in sm_eff.items() if v[0] == "param"]
+    ok = "_cache" in eff and bool(need) and all(
+        eff.get(a, ("", ""))[0] == "param" for a in need)
     ctx.ob("S/CachedSubstitutionMapper/init", ok, csm.loc(),
            "initialises the cache and the substitution function" if ok else
            "CachedSubstitutionMapper.__init__ does not initialise both bases "
